@@ -89,3 +89,33 @@ def tres(r, f, cls=False):
     if r[0] == "ok":
         return [0] + f(r[1])
     return [1, EXN_CODES.get(r[1], 0)] if cls else [1]
+
+
+FLAG_NAMES = ["OPTIMIZED", "NEWLOCALS", "VARARGS", "VARKEYWORDS", "NESTED", "GENERATOR", "NOFREE",
+              "COROUTINE", "ITERABLE_COROUTINE", "ASYNC_GENERATOR", "division", "absolute_import",
+              "with_statement", "print_function", "unicode_literals", "barry_as_FLUFL",
+              "generator_stop", "annotations"]
+FLAG_ID = {n: i for i, n in enumerate(FLAG_NAMES)}
+
+
+def flag_other(name):
+    return sum(map(ord, name)) % 100000
+
+
+def gflag(name):
+    if name in FLAG_ID:
+        return name if name.isupper() else "F_" + name
+    return "(F_other %d)" % flag_other(name)
+
+
+def flag_id(name):
+    return FLAG_ID[name] if name in FLAG_ID else 100 + flag_other(name)
+
+
+def gflags(names):
+    return glist([gflag(n) for n in names], "flag")
+
+
+def tflags(names):
+    """a set of flag names: sorted ids"""
+    return tlist(sorted(flag_id(n) for n in names), tz)
